@@ -23,7 +23,7 @@ ASSUMPTIONS = [
     "C09: proved on the model (coq/Mem/Own.v: a heap of reference-counted JSON nodes with jansson's ownership rules; Stuck = use or release of a freed node): jose_jws_hdr, jose_jwe_hdr, the prt/hdr prologue of jose_jwe_dec_cek_io, zip_in_protected_header, the zip epilogue of jose_jwe_enc_cek_io and encode_protected are balanced for EVERY JSON tree (every type of every member at every depth, present or absent) and every base64 decoder: never Stuck, the caller's heap is restored exactly after the result is released, nothing the function created stays alive; jwe_hdr_set_new is checked for every combination of member kinds by computation in the kernel (NOT for arbitrary subtrees: the full statement is in C09_NOTES.md); find_alg and the ios_auto arrays are not modelled; the texts repaired while this check was written (530be9d, cba5ab8, cd23cd6) are kept as regression witnesses that the model does see those defects",
     "C09: the model's programs are hand translations of the C text (line by line, the C statement next to each line); jansson's semantics (json_object_get borrows, set_new steals also on failure, set increfs, update_missing increfs the values it adds, decref at 1 frees and releases the children, json_auto_t releases what the variable holds at scope exit) is the model's definition, not verified against jansson; allocation failure is not modelled (C20)",
     "C09: buffer obligations (coq/Mem/Buffers.v): the list of jose_b64_dec/_buf call sites with a non-NULL output is written by hand and compared with a regex scan of /repo/lib on every run (a new or changed site fails the check); the theorem is 'under the recorded guard the requested length is at most the destination capacity', combined with dec_buf_bounds (every write index < requested length); that the recorded capacity / guard are what the C text says is read off the source, not proved",
-    "C09: dynamic side: 'every JSON input' is the generated family only (valid objects of every registered algorithm produced by the library, then single structured mutations: deletion, 8-way type substitution at every depth including inside the encoded protected header, string edits, nesting changes, on every argument position); RSA key generation is excluded from the mutation stream (cost) unless the template fails before generating",
+    "C09: dynamic side: 'every JSON input' is the generated family only (valid objects of every registered algorithm produced by the library, then single structured mutations: deletion, 8-way type substitution at every depth including inside the encoded protected header, string edits (incl. values decoding to exactly 1024/1025/1040/1041 octets for every member that feeds a fixed buffer), nesting changes, on every argument position); RSA key generation is excluded from the mutation stream (cost) unless the template fails before generating",
     "C09: the harness pins every argument node (one extra reference) so that a dropped borrowed reference is seen as a wrong count instead of a crash elsewhere; LeakSanitizer's reachability analysis is conservative (a stale pointer on the stack hides a leak until a later case; the allocation site, not the case, identifies the finding)",
 ]
 
@@ -357,6 +357,9 @@ def set_at(v, p, new, delete=False):
     return v
 
 
+BUFFER_MEMBERS = {"k", "encrypted_key", "p2s", "apu", "apv", "x", "y", "d", "iv", "tag", "signature"}
+
+
 def string_edits(s, rnd):
     out = []
     if s:
@@ -388,6 +391,10 @@ def mutations_of(v, rnd, inner=True):
             out.append(("obj-for-string", label, set_at(v, p, {"x": old})))
             for kind, new in string_edits(old, rnd):
                 out.append(("edit:" + kind, label, set_at(v, p, new)))
+            if p and p[-1] in BUFFER_MEMBERS:
+                # values that decode to exactly the capacity of the fixed buffers (KEYMAX, KEYMAX+16) and one step beyond
+                for nbytes in (1024, 1025, 1040, 1041):
+                    out.append(("edit:len-%d" % nbytes, label, set_at(v, p, G.b64(b"\x5a" * nbytes))))
             # the encoded protected header (or any member that is base64url of a JSON object): mutate inside
             if inner and p[-1] in ("protected",) and old:
                 try:
@@ -737,7 +744,7 @@ def correspond(ctx):
     order.shuffle(cases)                        # balance the shards (huge inputs, aborting cases)
     st = runner.standard(
         ctx, cases, oracle, nontrivial,
-        rule="valid JWS/JWE/JWK objects of every registered algorithm produced by the library, then single structured mutations (deletion, 8-way type substitution of every member at every depth incl. inside the encoded protected header, string edits, nesting changes, NULL-able arguments of every type) on every argument position of the %d JSON-consuming exports + 2 internal glue functions; %d strata (function, argument, member, mutation kind), every stratum sampled; per call: ASan+UBSan(use-after-scope)+LSan, jansson allocator counted/poisoned, reference counts of all caller nodes compared; non-trivial = call completed with all counts intact" % (len(consumers), nstrata),
+        rule="valid JWS/JWE/JWK objects of every registered algorithm produced by the library, then single structured mutations (deletion, 8-way type substitution of every member at every depth incl. inside the encoded protected header, string edits (incl. values decoding to exactly 1024/1025/1040/1041 octets for every member that feeds a fixed buffer), nesting changes, NULL-able arguments of every type) on every argument position of the %d JSON-consuming exports + 2 internal glue functions; %d strata (function, argument, member, mutation kind), every stratum sampled; per call: ASan+UBSan(use-after-scope)+LSan, jansson allocator counted/poisoned, reference counts of all caller nodes compared; non-trivial = call completed with all counts intact" % (len(consumers), nstrata),
         dist=dist, normalize=normalize, env_extra=env_extra,
         exhaustive_subspaces=["every (function, argument position, member path, mutation kind) stratum of the template set has at least one case (except the strata of templates whose valid call aborts: those are reported and counted)"])
     # valid templates must be valid: a refused valid call means the generator (not the library) is wrong
